@@ -319,7 +319,9 @@ class StructStub:
             # shape  "<k>s<k>s" + str(n) + "s"
             if builtins.len(fmt.parts) != 3 or fmt.parts[2] != 's' or not isinstance(fmt.parts[0], builtins.str):
                 raise Unsupported('struct format %r' % (fmt.parts,))
-            head, (n,), _ = fmt.parts[0], fmt.parts[1].parts, None
+            head, n = fmt.parts[0], fmt.parts[1]
+            if not isinstance(n, SInt):
+                raise Unsupported('struct format %r' % (fmt.parts,))
             sizes = [builtins.int(t) for t in head.split('s') if t] + [n]
             if n < 0:
                 raise _struct.error('bad char in struct format')
